@@ -295,6 +295,8 @@ static void treeCase(uint64_t seed, long k) {
             double e = got.size() == n ? 0.0 : NAN;
             for (int j = 0; j < n && !std::isnan(e); ++j) upd(e, bitEq(got[j], v[j]) ? 0.0 : std::max(absErr(got[j], v[j]), 1e-300));
             vh::P("lockAt_value_honoured", "lockAt." + vc + ".value_honoured", e, 0);
+            // keep the rest of the case well scaled whatever happened above: re-issue with a contiguous Vector
+            if (!(e <= 0)) mb.lockAt(s, v, P.stateLockLevel);
         } else if (P.stateLock == 3) { mb.unlock(s); vh::D("plan.unlock"); }
     }
 
@@ -385,13 +387,37 @@ static void treeCase(uint64_t seed, long k) {
     const double power = matter.calcMotionPower(s);
     Matrix MM; matter.calcM(s, MM);
     const Vector lambda = s.getMultipliers();
-    Vector resid0;
+    Vector resid0; double fscale = 0;
     {
         const Vector mobF = M.system.getMobilityForces(s, Stage::Dynamics);
         const Vector_<SpatialVec> bodyF = M.system.getRigidBodyForces(s, Stage::Dynamics);
         matter.calcResidualForce(s, mobF, bodyF, Vector(nu, 0.0), lambda, resid0);
+        Vector residNoLambda; matter.calcResidualForceIgnoringConstraints(s, mobF, bodyF, Vector(nu, 0.0), residNoLambda);
+        fscale = std::max(maxAbs(resid0), maxAbs(residNoLambda));   // size of the terms that make up f (before cancellation)
     }
     const double udotErrNorm = s.getUDotErr().size() ? maxAbs(s.getUDotErr()) : 0.0;
+    // a constraint that cannot move anything (e.g. between two bodies welded together) has G = 0: its multipliers are
+    // noise/0 (C08's business, not C10's); such systems are excluded from the force-equivalence records
+    bool wellPosed = lambda.size() == 0 || maxAbs(lambda) <= 1e6;
+    if (lambda.size()) {   // rank of the constraint Jacobian (public calcG + SVD)
+        Matrix G; matter.calcG(s, G);
+        if (G.nrow() > 0 && G.ncol() > 0) {
+            Vector sv; FactorSVD svd(G); svd.getSingularValues(sv);
+            double smax = 0, smin = 1e300; bool nan = false;
+            for (int i = 0; i < sv.size(); ++i) { if (std::isnan(sv[i])) nan = true; smax = std::max(smax, sv[i]); smin = std::min(smin, sv[i]); }
+            if (nan || G.nrow() > G.ncol() || !(smin >= 1e-6 * std::max(1.0, smax))) wellPosed = false;
+        } else if (G.nrow() > 0) wellPosed = false;
+    }
+    if (std::getenv("C10_DEBUG")) {
+        std::fprintf(stderr, "case %ld euler=%d nq=%d nu=%d t=%g udotErr=%g bodies:", k, (int)A.euler, nq, nu, t, udotErrNorm);
+        for (int i = 1; i < nb; ++i) std::fprintf(stderr, " %d:%s<-%d[lock=%d motion=%d lvl=%d mth=%d act=%d]", i, mobName(M.mtype[i]), M.parent[i], E[i].lockLevel, A.plan[i].motion, (int)A.plan[i].level, (int)A.plan[i].method, (int)E[i].motionActive);
+        for (auto& ci : A.cons) { std::fprintf(stderr, " | %s cb:", consName(ci.type)); for (int b : ci.cbodies) std::fprintf(stderr, " %d", b); std::fprintf(stderr, " cm:"); for (int b : ci.cmobs) std::fprintf(stderr, " %d", b); }
+        Vector eom = MM * udot + tauFull + resid0;
+        std::fprintf(stderr, "\n  |M udot + tau + resid(0,lambda)| = %g  lambda:", maxAbs(eom));
+        for (int i = 0; i < lambda.size(); ++i) std::fprintf(stderr, " %g", lambda[i]);
+        std::fprintf(stderr, "  udotErr:"); for (int i = 0; i < s.getUDotErr().size(); ++i) std::fprintf(stderr, " %g", s.getUDotErr()[i]);
+        std::fprintf(stderr, "\n");
+    }
     std::vector<int> methods;
     for (int i = 1; i < nb; ++i) { methods.push_back((int)M.bodies[i].getQMotionMethod(s)); methods.push_back((int)M.bodies[i].getUMotionMethod(s)); methods.push_back((int)M.bodies[i].getUDotMotionMethod(s)); }
     // pool values the Motion delivers, mapped to u-space where the code does so
@@ -437,10 +463,12 @@ static void treeCase(uint64_t seed, long k) {
             bool allFree = (int)matter.getFreeUDotIndex(sA).size() == nu && (int)matter.getFreeQIndex(sA).size() == nqInUse && (int)matter.getFreeUIndex(sA).size() == nu;
             if (!allFree) eFree = NAN;
         }
-        vh::P("unlock_restores_free", "unlock." + cls + ".restores_free", eFree, 1e-12);
+        if (wellPosed) vh::P("unlock_restores_free", "unlock." + cls + ".restores_free", eFree, 1e-12);
+        else vh::D("unlock.skipped.degenerateConstraints");
         // (ii) -tau applied as ordinary mobility forces reproduces the prescribed system's udot
         const bool consistent = udotErrNorm <= 1e-8;     // constraints compatible with the prescription
-        if (consistent) {
+        if (!wellPosed) vh::D("meta.skipped.degenerateConstraints");
+        else if (consistent) {
             *A.extra = Vector(-1.0 * tauFull);
             sA.invalidateAllCacheAtOrAbove(Stage::Dynamics);
             M.system.realize(sA, Stage::Acceleration);
@@ -480,7 +508,8 @@ static void treeCase(uint64_t seed, long k) {
         vh::D(std::string("presc.") + cls);
     }
     // ---- model record: block elimination
-    if (nu > 0) {
+    if (nu > 0 && !wellPosed) vh::D("elim.skipped.degenerateConstraints");
+    if (nu > 0 && wellPosed) {
         vh::Line L = vh::I("elim"); L.s(idTok(seed, k)).i(nu).i((int)freeUDot.size()).i((int)known.size());
         for (UIndex x : freeUDot) L.i((int)x);
         for (UIndex x : known) L.i((int)x);
@@ -488,12 +517,13 @@ static void treeCase(uint64_t seed, long k) {
         for (int i = 0; i < nu; ++i) L.d(-resid0[i]);
         putVec(L, uAfter);
         for (UIndex x : known) L.d(udot[x]);
+        L.d(fscale);
         L.emit();
         std::printf("T 1e-8 1e-10\n");
-        vh::Line o1 = vh::O("elim"); o1.s("udot"); putVec(o1, udot); o1.emit();
-        vh::Line o2 = vh::O("elim"); o2.s("tau"); putVec(o2, tau); o2.emit();
-        vh::Line o3 = vh::O("elim"); o3.s("forces"); putVec(o3, tauFull); o3.emit();
-        vh::Line o4 = vh::O("elim"); o4.s("power"); o4.d(power); o4.emit();
+        // one line = one comparison scale: quantities that are zero by cancellation (a free udot, a tau, the power)
+        // are compared against the magnitude of the whole solution, not against their own rounding noise
+        // last number: magnitude of the force terms making up f (comparison scale; the model echoes this input)
+        vh::Line o1 = vh::O("elim"); putVec(o1, udot); putVec(o1, tau); putVec(o1, tauFull); o1.d(power).d(fscale); o1.emit();
         vh::D(std::string("elim.") + cls + (known.empty() ? ".nothingKnown" : freeUDot.empty() ? ".allKnown" : ".mixed"));
     }
 }
